@@ -28,7 +28,7 @@
     Reading of two clauses.  "Nothing but a connection error precedes the ack": in
     graphql-transport-ws a ping must be answered at any time, so a pong may precede the ack as
     well (A).  The periodic keep-alive of the write loop (first after 15 s) is not part of the
-    model; see checks/C08.design.md.
+    model; in graphql-ws it is started by the first ack since fix 01d68b8 (checks/C08.design.md).
 
     PARTIAL (stated, not proved): "no goroutine serving it remains" is proved for the actor model
     (I: every actor terminates); on the real runtime it is observed by the correspondence check
